@@ -15,6 +15,13 @@ import time
 import types
 
 
+def _mkscratch():
+    """tempfile.mkdtemp(prefix="verif-"), on tmpfs when TMPDIR is not set (directory-heavy scenarios
+    are ~4x faster there and do not contend on the ext4 journal when sharded over 16 workers)."""
+    base = os.environ.get("TMPDIR") or ("/dev/shm" if os.access("/dev/shm", os.W_OK | os.X_OK) else None)
+    return tempfile.mkdtemp(prefix="verif-", dir=base)
+
+
 # --------------------------------------------------------------------------- accumulator
 def _size(inp):
     text = json.dumps(inp, default=str, sort_keys=True)
@@ -156,7 +163,7 @@ def _spawn_worker(job):
 
     cmd, env_, slot_, lib_ = Acc(), Acc(), Acc(), Acc()
     raw_args = ARGS_POOL[args_index]
-    scratch = tempfile.mkdtemp(prefix="verif-")
+    scratch = _mkscratch()
     try:
         root = pathlib.Path(scratch, "proj")
         calls = []
